@@ -42,8 +42,8 @@ theorem initPool_sizes_eq (page : Nat) (s s' : MP) (sz num : Nat) (hp : 0 < page
           exact Nat.mod_eq_of_lt (by omega)
         have hg : initialize_sizes page s sz num =
             { s with objSz := sz, incrSz := (num * sz + page - 1) / page * page,
-                     incrNum := (num * sz + page - 1) / page * page / sz, listLen := 64, listCnt := 0 } := by
-          simp only [initialize_sizes]
+                     incrNum := (num * sz + page - 1) / page * page / sz, listLen := chunk_list_size, listCnt := 0 } := by
+          simp only [initialize_sizes, chunk_list_size]
           rw [e1, e2, e3, e4]
         rw [hg]
         injection h with h
